@@ -167,12 +167,24 @@ pub fn deep_input(name: &str, n: usize) -> Vec<u8> {
 				b.extend_from_slice(&[0, 2, 0]); // ..., r: L { v: 2 } }
 			}
 		},
+		"ArcChain" => {
+			for _ in 0..n {
+				b.push(1); // Link { next: Arc(...) }
+			}
+			b.push(0);
+		},
+		"RcList" => {
+			for _ in 0..n {
+				b.extend_from_slice(&[3, 1]); // v, Some(Rc(...))
+			}
+			b.extend_from_slice(&[3, 0]);
+		},
 		other => panic!("harness: no deep input for {other}"),
 	}
 	b
 }
 
-pub const RECURSIVE: [&str; 5] = ["Tree", "Vec<Tree>", "Linked", "MapTree", "BoxTree"];
+pub const RECURSIVE: [&str; 7] = ["Tree", "Vec<Tree>", "Linked", "MapTree", "BoxTree", "ArcChain", "RcList"];
 
 pub fn check_stack(ctx_zoo: &[Entry], g: &mut Gen, stats: &mut Stats) -> Result<(), Violation> {
 	let name = *g.pick(&RECURSIVE);
@@ -275,7 +287,7 @@ pub fn run(ctx: &Ctx) -> (Level, Report) {
 wide-but-shallow and deep-but-narrow (recursion depth up to 60) generated values, every limit L in 0..=D_hi+2: (1) limited result is Err or equals \
 the unlimited result, (2) success at L implies success at L+1, (3) success whenever L >= D_hi (container nesting depth of the value), (4) failure \
 whenever L < D_hi-1, (5) decode_all_with_depth_limit succeeds iff the limited decode succeeds and nothing remains; bytes: the same clauses 1, 2, 5 \
-on mutated strings; stack safety: inputs nested 3e2..1e6 levels for five recursive types with L in {0,1,2,16,64,100,256} decoded on a 2 MiB stack \
+on mutated strings; stack safety: inputs nested 3e2..1e6 levels for seven recursive types (through Vec, Box, BTreeMap, Arc, Rc) with L in {0,1,2,16,64,100,256} decoded on a 2 MiB stack \
 inside a crash-recovering worker process (must return Err; a dead worker is a violation). Non-trivial = value with D_hi >= 2, or a deep input.",
 			assumptions: vec![
 				"the depth threshold is a one-level band (D_hi-1 ..= D_hi): the crate does not count a leaf container of bulk primitives and its own test requires that",
